@@ -52,6 +52,7 @@ func (ctx *Ctx) GenVC(fc *FuncContract) (res *FuncResult) {
 	vc.nosafe = fc.NoSafe
 	res.VC = vc
 	fr := vc.newFrame(fn, fc, "", 0, nil)
+	vc.rootFr = fr
 	entry := &State{reach: True, taint: False, base: "0", mbase: "0", heaps: map[Sort]Term{}, maps: map[string]Term{}, ghost: map[string]Term{}}
 	entry.alloc = vc.Fresh("alloc0", SInt)
 	entry.epochBound = entry.alloc
@@ -68,8 +69,9 @@ func (ctx *Ctx) GenVC(fc *FuncContract) (res *FuncResult) {
 		vc.paramTerms = append(vc.paramTerms, t)
 		entry.assume(vc.rangeAssumption(t, p.Type(), entry.alloc))
 		if _, isSl := U(p.Type()).(*types.Slice); isSl {
-			entry.assume(Implies(Neq(Rid(SBase(t)), IntLit(0)), Lt(App(SInt, "otype", Rid(SBase(t))), IntLit(0))))
-			vc.assume("slice parameters are backed by array allocations of their own (not by part of a struct object)")
+			sl := U(p.Type()).(*types.Slice)
+			entry.assume(Implies(Neq(Rid(SBase(t)), IntLit(0)), Eq(App(SInt, "otype", Rid(SBase(t))), IntLit(-int64(vc.tt.TID(sl.Elem()))))))
+			vc.assume("slice parameters are backed by array allocations of their own element type (not by part of a struct object, not shared with a slice of another element type)")
 		}
 		vc.inputs = append(vc.inputs, WatchTerm{p.Name(), t})
 	}
@@ -138,40 +140,62 @@ func (ctx *Ctx) GenVC(fc *FuncContract) (res *FuncResult) {
 	for i, r := range results {
 		vc.inputs = append(vc.inputs, WatchTerm{fmt.Sprintf("result%d", i), r})
 	}
-	// ghost assignments attached to the function exit
-	for _, gs := range fc.Sets {
-		gv := ctx.ghostVars[fc.PkgPath+"::"+gs.Var]
-		if gv == nil {
-			res.Err = "sets: unknown ghost variable " + gs.Var
-			return res
+	// Exit obligations: on the merged exit state, or - for contracts with an appends clause or
+	// the splitreturns flag - separately for every return site, which keeps the heap terms free
+	// of the if-then-else that merging introduces (names get an @k suffix).
+	exitObls := func(exit *State, results []Term, sfx string) string {
+		penv := fr.baseEnv(exit)
+		penv.old = fr.entry
+		bindResults(penv, fn.Signature, results)
+		// ghost assignments attached to the function exit
+		for _, gs := range fc.Sets {
+			gv := ctx.ghostVars[fc.PkgPath+"::"+gs.Var]
+			if gv == nil {
+				return "sets: unknown ghost variable " + gs.Var
+			}
+			v, err := penv.Eval(gs.E)
+			if err != nil {
+				return fmt.Sprintf("sets %s does not resolve: %v", gs.Var, err)
+			}
+			cur, _, _ := vc.ghostVar(exit, gv)
+			t := v.T
+			if v.Lit != nil {
+				t = penv.litTerm(v.Lit, cur.Sort)
+			}
+			exit.ghost["gv!"+gv.PkgPath+"::"+gv.Name] = vc.Define("gs", t)
 		}
-		v, err := penv.Eval(gs.E)
-		if err != nil {
-			res.Err = fmt.Sprintf("sets %s does not resolve: %v", gs.Var, err)
-			return res
+		for _, en := range fc.Ensures {
+			t, err := penv.EvalBool(en.E)
+			if err != nil {
+				return fmt.Sprintf("ensures %s does not resolve: %v", en.Label, err)
+			}
+			// instances of callee contracts used as spec functions are hypotheses of this obligation
+			reach := And(append([]Term{exit.reach}, penv.assumes...)...)
+			penv.assumes = nil
+			vc.addObl(&Obligation{Name: "ensures:" + en.Label + sfx, Kind: "ensures", Reach: reach, Cond: t, Taint: exit.taint,
+				Pos: ctx.prog.Fset.Position(fn.Pos()), Descr: en.Src})
 		}
-		cur, _, _ := vc.ghostVar(exit, gv)
-		t := v.T
-		if v.Lit != nil {
-			t = penv.litTerm(v.Lit, cur.Sort)
+		if fc.Appends != nil {
+			ctx.appendsObligations(vc, fr, fc, exit, penv, sfx)
 		}
-		exit.ghost["gv!"+gv.PkgPath+"::"+gv.Name] = vc.Define("gs", t)
+		// frame: nothing allocated before the call changes outside the modifies clause
+		if !fc.ModifiesAll {
+			ctx.frameObligation(vc, fr, fc, exit, sfx)
+		}
+		return ""
 	}
-	for _, en := range fc.Ensures {
-		t, err := penv.EvalBool(en.E)
-		if err != nil {
-			res.Err = fmt.Sprintf("ensures %s does not resolve: %v", en.Label, err)
-			return res
+	if (fc.Appends != nil || fc.SplitReturns) && len(fr.rets) >= 2 && len(fr.rets) <= 8 {
+		for k, rs := range fr.rets {
+			if msg := exitObls(rs.st.clone(), rs.vals, fmt.Sprintf("@%d", k+1)); msg != "" {
+				res.Err = msg
+				return res
+			}
 		}
-		// instances of callee contracts used as spec functions are hypotheses of this obligation
-		reach := And(append([]Term{exit.reach}, penv.assumes...)...)
-		penv.assumes = nil
-		vc.addObl(&Obligation{Name: "ensures:" + en.Label, Kind: "ensures", Reach: reach, Cond: t, Taint: exit.taint,
-			Pos: ctx.prog.Fset.Position(fn.Pos()), Descr: en.Src})
-	}
-	// frame: nothing allocated before the call changes outside the modifies clause
-	if !fc.ModifiesAll {
-		ctx.frameObligation(vc, fr, fc, exit)
+		// the merged state still carries the ghost assignments for the cover check and replay
+		_ = penv
+	} else if msg := exitObls(exit, results, ""); msg != "" {
+		res.Err = msg
+		return res
 	}
 	vc.addObl(&Obligation{Name: "cover", Kind: "cover", Reach: exit.reach, Cond: False, IsCover: true, Taint: False,
 		Pos: ctx.prog.Fset.Position(fn.Pos()), Descr: "precondition satisfiable and a return reachable"})
@@ -179,7 +203,9 @@ func (ctx *Ctx) GenVC(fc *FuncContract) (res *FuncResult) {
 	return res
 }
 
-func (ctx *Ctx) frameObligation(vc *VC, fr *Frame, fc *FuncContract, exit *State) {
+// modifiesAllowed: per value sort, the conditions on the bound reference q!r under which the
+// modifies clauses of fc (evaluated in the entry state of fr) permit a change.
+func (ctx *Ctx) modifiesAllowed(vc *VC, fr *Frame, fc *FuncContract) (map[Sort][]Term, bool) {
 	env := fr.baseEnv(fr.entry)
 	env.old = fr.entry
 	q := Term{"q!r", SRef}
@@ -236,7 +262,27 @@ func (ctx *Ctx) frameObligation(vc *VC, fr *Frame, fc *FuncContract, exit *State
 			per[s] = append(per[s], cond)
 		}
 	}
-	if bad {
+	if fc.Appends != nil {
+		b, es, n, err := vc.appendParts(env, fc.Appends)
+		if err != nil {
+			vc.note("contract error: appends: %v", err)
+			return per, false
+		}
+		ln, cp, base := SLen(b), SCap(b), SBase(b)
+		m := Ite(Le(Add(ln, n), cp), n, Sub(cp, ln))
+		if fc.Appends.When != nil {
+			m = Sub(cp, ln)
+		}
+		lo := Add(Roff(base), ln)
+		per[es] = append(per[es], And(Eq(Rid(q), Rid(base)), Le(lo, Roff(q)), Lt(Roff(q), Add(lo, m))))
+	}
+	return per, !bad
+}
+
+func (ctx *Ctx) frameObligation(vc *VC, fr *Frame, fc *FuncContract, exit *State, sfx string) {
+	q := Term{"q!r", SRef}
+	per, ok := ctx.modifiesAllowed(vc, fr, fc)
+	if !ok {
 		return
 	}
 	var sl []string
@@ -314,7 +360,7 @@ func (ctx *Ctx) frameObligation(vc *VC, fr *Frame, fc *FuncContract, exit *State
 		all = append(all, p.t)
 		whats = append(whats, p.what)
 	}
-	vc.addObl(&Obligation{Name: "frame", Kind: "frame", Reach: exit.reach, Cond: And(all...), Taint: exit.taint,
+	vc.addObl(&Obligation{Name: "frame" + sfx, Kind: "frame", Reach: exit.reach, Cond: And(all...), Taint: exit.taint,
 		Pos: ctx.prog.Fset.Position(fr.fn.Pos()), Descr: "only locations in the modifies/assigns clauses change (" + strings.Join(whats, "; ") + ")"})
 }
 
@@ -428,4 +474,49 @@ func (vc *VC) Query(o *Obligation, forCVC5 bool, withModel bool) string {
 		}
 	}
 	return sb.String()
+}
+
+// appendsObligations: the function under contract behaves like append(p, n elements).
+func (ctx *Ctx) appendsObligations(vc *VC, fr *Frame, fc *FuncContract, exit *State, penv *SpecEnv, sfx string) {
+	env := fr.baseEnv(fr.entry)
+	env.old = fr.entry
+	b, es, n, err := vc.appendParts(env, fc.Appends)
+	if err != nil {
+		vc.note("contract error: appends: %v", err)
+		return
+	}
+	rv, ok := penv.vars["result0"]
+	if !ok {
+		rv, ok = penv.vars["result"]
+	}
+	if !ok || rv.T.Sort != SSlice {
+		vc.note("contract error: appends: the first result is not a slice")
+		return
+	}
+	r := rv.T
+	ln, cp, base := SLen(b), SCap(b), SBase(b)
+	fits := Le(Add(ln, n), cp)
+	pos := ctx.prog.Fset.Position(fr.fn.Pos())
+	when := True
+	if fc.Appends.When != nil {
+		w, err := penv.EvalBool(fc.Appends.When)
+		if err != nil {
+			vc.note("contract error: appends ... when: %v", err)
+			return
+		}
+		when = w
+	}
+	add := func(name string, cond Term, descr string) {
+		cond = Implies(when, cond)
+		vc.addObl(&Obligation{Name: "appends:" + name + sfx, Kind: "ensures", Reach: exit.reach, Cond: cond, Taint: exit.taint, Pos: pos,
+			Descr: "appends " + fc.Appends.Src + ": " + descr})
+	}
+	add("count", Ge(n, IntLit(0)), "the count is not negative")
+	add("length", Eq(SLen(r), Add(ln, n)), "the result is n elements longer")
+	add("inplace", Implies(fits, And(Eq(SBase(r), base), Eq(SCap(r), cp))), "when the elements fit the capacity the result shares the array")
+	add("fresh", Implies(Not(fits), Ge(Rid(SBase(r)), fr.entry.alloc)), "when they do not fit the result is a new array")
+	h0, h1 := vc.heap(fr.entry, es), vc.heap(exit, es)
+	j := Term{"q!j", SInt}
+	add("prefix", Term{fmt.Sprintf("(forall ((q!j Int)) (=> (and (<= 0 q!j) (< q!j %s)) (= (select %s %s) (select %s %s))))", ln.S,
+		h1.S, ElemAddr(SBase(r), j, 1).S, h0.S, ElemAddr(base, j, 1).S), SBool}, "the old elements are kept")
 }
